@@ -413,6 +413,26 @@ def response_streams():
     return R
 
 
+def response_limit_streams(mls: int, mfs: int):
+    """Responses (lax line endings) whose status line / field / trailer is one byte below, at and above its limit,
+    ended by CRLF, a bare LF, or CR CR LF."""
+    for d in (-1, 0, 1):
+        for eol_name, eol in (("crlf", b"\r\n"), ("lf", b"\n"), ("crcrlf", b"\r\r\n")):
+            L = mls + d
+            if L >= 16:
+                sl = b"HTTP/1.1 200 " + b"r" * (L - len(b"HTTP/1.1 200 "))
+                yield (f"resp-statusline{d:+d}-{eol_name}", sl + eol + b"Content-Length: 1\r\n\r\nx")
+            L = mfs + d
+            if L >= 16:
+                fl = b"X-Long: " + b"v" * (L - 8)
+                yield (f"resp-field{d:+d}-{eol_name}", b"HTTP/1.1 200 OK\r\n" + fl + eol + b"Content-Length: 1\r\n\r\nx")
+                yield (f"resp-trailer{d:+d}-{eol_name}", b"HTTP/1.1 200 OK\r\nTransfer-Encoding: chunked\r\n\r\n1\r\nx\r\n0\r\n"
+                       + b"X-T: " + b"v" * (L - 5) + eol + b"\r\n")
+    # stray CR behind a bare-LF line ending
+    yield ("resp-lastchunk-lf-cr", b"HTTP/1.1 200 OK\r\nTransfer-Encoding: chunked\r\n\r\n3\r\nabc\r\n0\n\rT: v\r\n\r\n")
+    yield ("resp-field-lf-cr", b"HTTP/1.1 200 OK\n\rX: v\r\nContent-Length: 1\r\n\r\nx")
+
+
 # ---------------------------------------------------------------- hostile targets
 HOSTILE_TARGETS = [
     b"http://[::1/", b"http://h:abc/", b"http://h:99999999/", b"http://h:65536/", b"http://h:-1/", b"http://[/",
